@@ -31,6 +31,15 @@ VALUES = {"int": {"a": I(3), "b": I(2)}, "real": {"a": R(5, 2), "b": R(1, 2)},
           "wreal": {"a": R(2, 1), "b": R(3, 1)},
           "wrvec": {"a": L(R(1, 1), R(2, 1), R(3, 1)), "b": L(R(2, 1), R(2, 1), R(4, 1))},
           "str": {"a": S("xy"), "b": S("q")}}
+# the same classes with zeros among the elements (division by zero, zero to a power, comparisons with zero): chosen for a third
+# of the histories
+VALUES_ZERO = {"int": {"a": I(0), "b": I(0)}, "real": {"a": R(0, 1), "b": R(0, 1)},
+               "ivec": {"a": L(I(0), I(2), I(0)), "b": L(I(0), I(0), I(3))},
+               "rvec": {"a": L(R(0, 1), R(3, 2), R(0, 1)), "b": L(R(0, 1), R(0, 1), R(2, 1))},
+               "mat": {"a": L(L(I(0), I(2)), L(I(3), I(0))), "b": L(L(I(0), I(0)), L(I(7), I(8)))},
+               "wreal": {"a": R(0, 1), "b": R(3, 1)}}
+# ... and with integers whose powers leave the range in which a double is exact (2^53): chosen for a sixth of the histories
+VALUES_BIG = {"int": {"a": I(7), "b": I(20)}, "ivec": {"a": L(I(7), I(3), I(11)), "b": L(I(20), I(34), I(17))}}
 CLASSES = list(VALUES)
 ADMITTED = [c for c in CLASSES if c != "str"]
 
@@ -66,8 +75,17 @@ def expressions(rnd, n_deep):
             red = {"k": "ad", "adv": adv, "op": op, "a": a}
             nested += [{"k": "dy", "op": "%", "a": red, "b": lit(I(2))}, {"k": "dy", "op": "+", "a": red, "b": b},
                        {"k": "dy", "op": "*", "a": lit(I(2)), "b": red}, {"k": "mo", "op": "-", "a": red},
-                       {"k": "dy", "op": "-", "a": red, "b": {"k": "ad", "adv": "over", "op": "+", "a": b}}]
+                       {"k": "dy", "op": "-", "a": red, "b": {"k": "ad", "adv": "over", "op": "+", "a": b}},
+                       # a reduction (a NumPy scalar, not a Python number) divided by / raised to a variable that may be zero
+                       {"k": "dy", "op": "%", "a": red, "b": b}, {"k": "dy", "op": "%", "a": b, "b": red}, {"k": "dy", "op": "^", "a": red, "b": b}]
     out += nested
+    # the dyadic forms a f/b and a f\b (Over-Neutral, Scan-Over-Neutral) over variables: next to the grammar the compiler accepts
+    for adv in ("over", "scan"):
+        for op in ("+", "*", "|"):
+            out += [{"k": "ad2", "adv": adv, "op": op, "a": b, "b": a}, {"k": "ad2", "adv": adv, "op": op, "a": a, "b": b},
+                    {"k": "ad2", "adv": adv, "op": op, "a": lit(I(2)), "b": a}]
+    # powers of powers (results beyond 2^53 from small operands)
+    out += [{"k": "dy", "op": "^", "a": {"k": "dy", "op": "^", "a": a, "b": a}, "b": a}, {"k": "dy", "op": "^", "a": a, "b": {"k": "dy", "op": "*", "a": b, "b": lit(I(2))}}]
     # comparisons as BOTH operands of an arithmetic operator (truth values must be numbers, not booleans)
     cmps = [{"k": "dy", "op": ">", "a": a, "b": lit(I(1))}, {"k": "dy", "op": "<", "a": a, "b": b}, {"k": "dy", "op": "=", "a": a, "b": b}]
     for op in ("+", "*", "-"):
@@ -214,16 +232,19 @@ def run(tier, seed):
         for e in es:
             cls = dict(starts[start])
             steps = []
+            q = rnd.random()
+            alt = VALUES_ZERO if q < 1 / 3 else VALUES_BIG if q < 1 / 2 else {}
+            valof = (lambda c, v, alt=alt: alt.get(c, VALUES[c])[v])
             for st in h:
                 if st["a"] == "rebind":
                     cls[st["v"]] = st["c"]
                     steps.append(("rebind", st["v"], st["c"], st["route"]))
                 else:
-                    env = {v: VALUES[cls[v]][v] for v in ("a", "b")}
+                    env = {v: valof(cls[v], v) for v in ("a", "b")}
                     cid = len(cases) + 1
                     cases.append({"id": cid, "ast": e, "env": env})
                     steps.append(("eval", st["a"], cid, st["compiled"], st["stale"]))
-            plans.append((start, e, steps))
+            plans.append((start, e, steps, valof))
     vals = kgeval.tlc_eval(cases, ev, "KgEvalCases.tla: prescribed value of every evaluation of every history")
     common.use_repo()
     import klongpy.interpreter as ki
@@ -237,7 +258,7 @@ def run(tier, seed):
         ki.compile_expr = ce
     nevals = ncmp = both_off_spec = in_domain = 0
     seen = set()
-    for (start, e, steps) in plans:
+    for (start, e, steps, valof) in plans:
         src = kgeval.render_ast(e)
         lam = kgeval.render_ast(subst(e, {"a": "x", "b": "y"}))
         uses_b = "b" in kgeval.vars_of(e)
@@ -247,13 +268,13 @@ def run(tier, seed):
             k._klverif_nocompile = (mode == "interpreted")
             cls = dict(starts[start])
             for v in ("a", "b"):
-                k(f"{v}::{canon.render(VALUES[cls[v]][v])}")
+                k(f"{v}::{canon.render(valof(cls[v], v))}")
             k(f"f::{{{src}}}")
             res = []
             for st in steps:
                 if st[0] == "rebind":
                     _, v, c, route = st
-                    val = VALUES[c][v]
+                    val = valof(c, v)
                     if route == "top":
                         k(f"{v}::{canon.render(val)}")
                     elif route == "py":
@@ -323,7 +344,7 @@ def run(tier, seed):
                 both_off_spec += 1
     ev.cov["evaluations"] = nevals
     ev.cov["traces_validated_against_impl"] = len(plans)
-    ev.cov["distinct_nontrivial"] = sum(1 for (_, _, steps) in plans if any(s[0] == "rebind" for s in steps))
+    ev.cov["distinct_nontrivial"] = sum(1 for (_, _, steps, _) in plans if any(s[0] == "rebind" for s in steps))
     ev.cov["evaluations_inside_kgeval_domain"] = in_domain
     ev.cov["compiled_vs_interpreted_differences"] = ncmp
     ev.cov["both_runs_agree_but_differ_from_kgeval"] = both_off_spec
